@@ -3,6 +3,8 @@
 //! usage: hv <property> --tier quick|thorough --seed N --out DIR --landmarks FILE
 mod lm;
 mod p_duration;
+mod p_epoch;
+mod p_misc;
 mod rec;
 mod rng;
 
@@ -24,7 +26,11 @@ fn main() {
         std::process::exit(2);
     }
     // panics in the code under test are data: keep stderr quiet
-    std::panic::set_hook(Box::new(|_| {}));
+    std::panic::set_hook(Box::new(|info| {
+        if !rec::IN_CATCH.with(|c| c.get()) {
+            eprintln!("harness panic (not in code under test): {info}");
+        }
+    }));
     let prop = args[1].clone();
     let thorough = arg(&args, "--tier", "quick") == "thorough";
     let seed: u64 = arg(&args, "--seed", "1").parse().unwrap_or(1);
@@ -44,9 +50,40 @@ fn main() {
             p_duration::selftest(&mut rec, &lm, &mut rng);
         }
         "C14" => {
-            let g = p_duration::DurGen::new(&lm);
-            let mut m = p_duration::DM::new(&mut rec);
-            p_duration::c14_durations(&mut m, &g, &mut rng, thorough);
+            {
+                let g = p_duration::DurGen::new(&lm);
+                let mut m = p_duration::DM::new(&mut rec);
+                p_duration::c14_durations(&mut m, &g, &mut rng, thorough);
+            }
+            let g = p_epoch::EpGen::new(&lm, false);
+            let mut m = p_epoch::EM::new(&mut rec);
+            p_epoch::c14_epochs(&mut m, &g, &mut rng, thorough);
+        }
+        "C04" => p_epoch::c04(&mut rec, &lm, &mut rng, thorough),
+        "C05" => p_epoch::c05(&mut rec, &lm, &mut rng, thorough),
+        "C06" => p_epoch::c06(&mut rec, &lm, &mut rng, thorough),
+        "C08" => p_epoch::c08(&mut rec, &lm, &mut rng, thorough),
+        "C12" => p_epoch::c12(&mut rec, &lm, &mut rng, thorough),
+        "C15" => p_misc::c15(&mut rec, &lm, &mut rng, thorough),
+        "C16" => {
+            p_misc::c16_weekday(&mut rec);
+            let g = p_epoch::EpGen::new(&lm, false);
+            let mut m = p_epoch::EM::new(&mut rec);
+            p_epoch::c16_epochs(&mut m, &g, &mut rng, thorough);
+        }
+        "C09F" => {
+            let mut m = p_epoch::EM::new(&mut rec);
+            p_epoch::c09_fields(&mut m, &mut rng, thorough, false, true);
+        }
+        "C16E" => {
+            let g = p_epoch::EpGen::new(&lm, false);
+            let mut m = p_epoch::EM::new(&mut rec);
+            p_epoch::c16_epochs(&mut m, &g, &mut rng, thorough);
+        }
+        "C20T" => {
+            let g = p_epoch::EpGen::new(&lm, false);
+            let mut m = p_epoch::EM::new(&mut rec);
+            p_epoch::c20_tow(&mut m, &g, &mut rng, thorough);
         }
         _ => {
             eprintln!("unknown property {prop}");
